@@ -73,6 +73,12 @@ CHECKS['C10'] = dict(
    note='PARTIAL: the fixed-point statements have no theorem (the text->tree front end is modelled only at token level); known findings F24a/F24b (two corpus files, escapes / progid filter) and F5b (query starting with a feature prints )and( : pinned by a fixture). Trusted: the plain-CSS detector in harness/props/c10.py.',
    design='3/C10')
 
+CHECKS['C16'] = dict(
+   technique='Coq proof by induction over file lists and over operation histories (state machine of ldirectory over an abstract file system, compiler as an oracle) + correspondence on real scratch directories with the real command line',
+   text='Theorems C16_level_spec (an output is rewritten with the compilation of THAT file alone iff --force, missing or older than its source, and not a dry run), C16_stale_means (staleness comparison regenerated from the source), C16_others_untouched (independent of other files), C16_dry_run_identity, C16_history (over every history of modify/touch/run with any flags an output at least as new as its source is the compilation of the current source, both naming schemes), C16_after_run, C16_scope_isolated (table fact: per-file copy of the include scope). Correspondence: histories of create/modify/touch/re-stamp/run with random flag subsets on a two-level tree with hidden directory; after every run the whole output tree is compared with the model whose compile oracle is a single-file run of the real CLI with the same options and includes; single-file CLI vs library.',
+   note='Trusted: Coq kernel; hand model of ldirectory; the oracle (real single-file command line); os.utime-controlled logical clock. PARTIAL: creation of new source names inside a history is outside C16_history (fixed name set), covered by the correspondence; OS glob order and mtime granularity are outside the model.',
+   design='3/C16')
+
 NOT_YET = {}
 
 
